@@ -2,7 +2,11 @@
    denotation as N-d arrays (NdArray.v), and transcriptions of the optimizer's
    most frequently fired value-level rewrite rules as functions
    [expr -> option expr] ([None] = the rule declines / does not apply).
-   Definitions only; soundness proofs are in ExprRulesFacts.v.
+   Definitions only; soundness proofs are in ExprRulesFacts.v (R1-R9, rechunk fusion / pushdown
+   through Elemwise / into a read) and ExprRulesFacts2.v (R10 slice through Concatenate, R11 slice
+   through Stack, R12 slice of ones/zeros/full, R13 Elemwise._lower, R14 Rechunk._lower with the
+   pushdown through Concatenate, R15 slice through BroadcastTo, R16 rechunk through ExpandDims /
+   Transpose).
 
    Children the rules do not look into are opaque leaves [ELeaf id shape chunks]
    (id identifies the node's _name).  *)
@@ -28,23 +32,44 @@ Fixpoint src_eqb (a b : src) : bool :=
   | _, _ => false
   end.
 
+Fixpoint omap {A B} (f : A -> option B) (l : list A) : option (list B) :=
+  match l with
+  | [] => Some []
+  | x :: t => match f x, omap f t with Some y, Some r => Some (y :: r) | _, _ => None end
+  end.
+
+Fixpoint set_at {A} (k : nat) (v : A) (l : list A) : list A :=
+  match l, k with
+  | [], _ => []
+  | _ :: t, O => v :: t
+  | x :: t, S k' => x :: set_at k' v t
+  end.
+
 Inductive expr :=
 | ELeaf (id : Z) (shp : list Z) (chunks : list (list Z))
 | EConst (id : Z)                                   (* scalar operand of an Elemwise *)
 | ESlice (e : expr) (ix : list pidx) (opt : bool)   (* SliceSlicesIntegers(array, index, allow_getitem_optimization) *)
 | ETranspose (e : expr) (axes : list nat)           (* Transpose(array, axes) *)
-| EElemwise (op : Z) (args : list expr)             (* Elemwise(op, dtype, name, where, out, kwargs, *args): op = id of the first six *)
+| EElemwise (op : Z) (args : list expr)             (* Elemwise(op, dtype, name, where, out, kwargs, *args): op = id of (op, dtype, name, kwargs);
+                                                       op < 0: where= and out= are arrays, and are the last two of args *)
 | ERechunk (e : expr) (spec : Z) (chunks : list (list Z)) (prm : Z) (balance : bool) (p2p : bool)
       (* Rechunk(array, _chunks, threshold, block_size_limit, balance, method):
          spec = id of the raw _chunks operand, chunks = the resolved .chunks,
          prm = id of (threshold, block_size_limit, method) *)
 | EExpandDims (e : expr) (axes : list nat)          (* ExpandDims(array, axes) *)
 | EConcat (e : expr) (axis : nat) (rest : list expr)(* Concatenate(array, axis, meta, *rest) *)
-| EBroadcastTo (e : expr) (shp : list Z)
+| EBroadcastTo (e : expr) (shp : list Z) (chunks : list (list Z))   (* BroadcastTo(array, _shape, _chunks, _meta_override) *)
 | EArange (start step count : Z) (chunks : list Z)  (* Arange with integer start/step and num_rows = count *)
-| ESource (s : src) (chunks : list (list Z)) (region : option (list pslice)) (nd : bool) (itemsize : Z) (other : Z).
+| ESource (s : src) (chunks : list (list Z)) (region : option (list pslice)) (nd : bool) (itemsize : Z) (other : Z)
       (* FromArray(array, _chunks, ..., _region): nd = the source is a plain numpy.ndarray, itemsize = its
          dtype.itemsize, other = id of (lock, getitem, inline_array, meta, asarray, fancy) *)
+| EStack (e : expr) (axis : nat) (rest : list expr)   (* Stack(array, axis, meta, *rest) *)
+| EFull (id : Z) (shp : list Z) (chunks : list (list Z))
+      (* BroadcastTrick (Ones / Zeros / Full)(shape, dtype, chunks, meta, kwargs, name): id = id of
+         (class, dtype, meta, kwargs); every element is the scalar [constv id] *)
+| ETasksRechunk (e : expr) (chunks : list (list Z)) (prm : Z).
+      (* TasksRechunk(array, _chunks, threshold, block_size_limit): the lowered rechunk; prm = id of
+         (threshold, block_size_limit), 0 = both None *)
 
 (* ---------------------------------------------------------------------- *)
 (* advertised shape *)
@@ -58,24 +83,54 @@ Fixpoint eshape (e : expr) : list Z :=
   | ERechunk e' _ _ _ _ _ => eshape e'
   | EExpandDims e' axes => expand_shape axes (eshape e')
   | EConcat e' axis rest => concat_shape axis (eshape e') (map eshape rest)
-  | EBroadcastTo _ shp => shp
+  | EBroadcastTo _ shp _ => shp
   | EArange _ _ count _ => [count]
   | ESource s _ region _ _ _ =>       (* FromArray._effective_shape *)
       match region with
       | None => src_shape s
       | Some r => slice_shape (map ISlice r) (src_shape s)
       end
+  | EStack e' axis rest => insert_at axis (Z.of_nat (S (length rest))) (eshape e')
+  | EFull _ shp _ => shp
+  | ETasksRechunk e' _ _ => eshape e'
   end.
 
 Definition endim (e : expr) : nat := length (eshape e).
 
+(* SliceSlicesIntegers.chunks: new_blockdim(d, db, i) for d, i, db in zip(shape, index, chunks)
+   if i is not an integer *)
+Fixpoint slice_chunks_nd (ix : list pidx) (chunks : list (list Z)) (shp : list Z) : list (list Z) :=
+  match ix, chunks, shp with
+  | IInt _ :: ix', _ :: c', _ :: s' => slice_chunks_nd ix' c' s'
+  | ISlice s :: ix', c :: c', d :: s' => new_blockdim d c s :: slice_chunks_nd ix' c' s'
+  | _, _, _ => []
+  end.
+
 (* chunks, where the model knows them *)
-Definition echunks (e : expr) : option (list (list Z)) :=
+Fixpoint echunks (e : expr) : option (list (list Z)) :=
   match e with
   | ELeaf _ _ c => Some c
   | ERechunk _ _ c _ _ _ => Some c
   | EArange _ _ _ c => Some [c]
   | ESource _ c _ _ _ _ => Some c
+  | ESlice e' ix _ =>
+      match echunks e' with
+      | Some c => Some (slice_chunks_nd ix c (eshape e'))
+      | None => None
+      end
+  | EBroadcastTo _ _ c => Some c
+  | EFull _ _ c => Some c
+  | ETasksRechunk _ c _ => Some c
+  | EConcat e' axis rest =>      (* bds[0][:axis] + (sum((bd[axis] for bd in bds), ()),) + bds[0][axis + 1:] *)
+      match echunks e',
+            (fix go (l : list expr) : option (list (list (list Z))) :=
+               match l with
+               | [] => Some []
+               | x :: t => match echunks x, go t with Some y, Some r => Some (y :: r) | _, _ => None end
+               end) rest with
+      | Some c, Some cs => Some (set_at axis (concat (map (fun d => nth axis d []) (c :: cs))) c)
+      | _, _ => None
+      end
   | _ => None
   end.
 
@@ -104,13 +159,16 @@ Section Den.
     | ERechunk e' _ c _ _ _ => arechunk c (den e')
     | EExpandDims e' axes => aexpand_dims axes (den e')
     | EConcat e' axis rest => aconcat axis (den e') (map den rest)
-    | EBroadcastTo e' shp => abroadcast_to shp (den e')
+    | EBroadcastTo e' shp _ => abroadcast_to shp (den e')
     | EArange start step count _ => aarange inj start step count
     | ESource s _ region _ _ _ =>
         match region with
         | None => srcden s
         | Some r => aslice (map ISlice r) (srcden s)
         end
+    | EStack e' axis rest => astack axis (den e') (map den rest)
+    | EFull id shp _ => afull shp (constv id)
+    | ETasksRechunk e' c _ => arechunk c (den e')
     end.
 End Den.
 
@@ -153,10 +211,15 @@ Fixpoint wfb (e : expr) : bool :=
   | EConcat e' axis rest =>
       wfb e' && forallb wfb rest && Nat.ltb axis (endim e') &&
       forallb (fun r => list_eqb Z.eqb (set_nth axis 0 (eshape r)) (set_nth axis 0 (eshape e'))) rest
-  | EBroadcastTo e' shp => wfb e' && nonnegb shp && bcast_intob (eshape e') shp
+  | EBroadcastTo e' shp _ => wfb e' && nonnegb shp && bcast_intob (eshape e') shp
   | EArange _ _ count _ => 0 <=? count
   | ESource s _ region _ _ _ =>
       src_wfb s && match region with None => true | Some r => region_okb r (src_shape s) end
+  | EStack e' axis rest =>
+      wfb e' && forallb wfb rest && Nat.leb axis (endim e') &&
+      forallb (fun r => list_eqb Z.eqb (eshape r) (eshape e')) rest
+  | EFull _ shp _ => nonnegb shp
+  | ETasksRechunk e' _ _ => wfb e'
   end.
 
 (* ---------------------------------------------------------------------- *)
@@ -190,7 +253,17 @@ Fixpoint expr_eqb (a b : expr) : bool :=
          | x :: t, y :: t' => expr_eqb x y && go t t'
          | _, _ => false
          end) rest rest'
-  | EBroadcastTo e s, EBroadcastTo e' s' => expr_eqb e e' && list_eqb Z.eqb s s'
+  | EBroadcastTo e s c, EBroadcastTo e' s' c' => expr_eqb e e' && list_eqb Z.eqb s s' && zll_eqb c c'
+  | EStack e ax rest, EStack e' ax' rest' =>
+      expr_eqb e e' && Nat.eqb ax ax' &&
+      (fix go (l l' : list expr) : bool :=
+         match l, l' with
+         | [], [] => true
+         | x :: t, y :: t' => expr_eqb x y && go t t'
+         | _, _ => false
+         end) rest rest'
+  | EFull i s c, EFull i' s' c' => (i =? i') && list_eqb Z.eqb s s' && zll_eqb c c'
+  | ETasksRechunk e c p, ETasksRechunk e' c' p' => expr_eqb e e' && zll_eqb c c' && (p =? p')
   | EArange a b c ch, EArange a' b' c' ch' => (a =? a') && (b =? b') && (c =? c') && list_eqb Z.eqb ch ch'
   | ESource s c r nd isz ot, ESource s' c' r' nd' isz' ot' =>
       src_eqb s s' && zll_eqb c c' &&
@@ -245,12 +318,6 @@ Definition mk_getitem (x : expr) (ix : list pidx) : option expr :=
 (* index + (slice(None),) * (ndim - len(index)) *)
 Definition pad_index (ix : list pidx) (n : nat) : list pidx :=
   ix ++ repeat (ISlice colon) (n - length ix).
-
-Fixpoint omap {A B} (f : A -> option B) (l : list A) : option (list B) :=
-  match l with
-  | [] => Some []
-  | x :: t => match f x, omap f t with Some y, Some r => Some (y :: r) | _, _ => None end
-  end.
 
 (* ---------------------------------------------------------------------- *)
 (* R2 / R1   SliceSlicesIntegers._simplify_down   [slicing/_basic.py] *)
@@ -319,6 +386,8 @@ Definition rule_slice_elemwise (e : expr) : option expr :=
   | ESlice (EElemwise op args) ix _ =>
       let o := bshape_all (map eshape args) in
       let full := pad_index ix (length o) in
+      (* out= is an array (op < 0): "an integer index would turn out='s blocks into NumPy scalars" *)
+      if (op <? 0) && existsb is_int full then None else
       match omap (fun a => if is_const a then Some a
                            else mk_getitem a (elem_arg_index full (eshape a) o)) args with
       | Some args' => Some (EElemwise op args')
@@ -567,6 +636,352 @@ Definition rule_rechunk_elemwise (e : expr) : option expr :=
   end.
 
 (* ---------------------------------------------------------------------- *)
+(* R10  Concatenate._accept_slice   [stacking/_concatenate.py]
+   Slice(Concatenate(arrays, axis), ix) with slices only and a unit-step slice on the
+   concatenation axis: every piece the slice overlaps is sliced (public __getitem__) with the
+   slice's local range on [axis] and the unchanged slices elsewhere; pieces it misses are dropped;
+   one remaining piece is returned as is, several are concatenated again. *)
+Definition is_none (i : pidx) : bool := match i with INone => true | _ => false end.
+
+Fixpoint set_idx (k : nat) (v : pidx) (l : list pidx) : list pidx :=
+  match l, k with
+  | [], _ => []
+  | _ :: t, O => v :: t
+  | x :: t, S k' => x :: set_idx k' v t
+  end.
+
+Definition range_slice (a b : Z) : pidx := ISlice (mkslice (Some a) (Some b) None).   (* slice(a, b) *)
+
+Fixpoint concat_pieces (axis : nat) (full : list pidx) (start stop cum : Z) (arrays : list expr)
+  : option (list expr) :=
+  match arrays with
+  | [] => Some []
+  | arr :: t =>
+      let arr_size := nth axis (eshape arr) 0 in
+      let arr_start := cum in
+      let arr_end := cum + arr_size in
+      let overlap_start := Z.max start arr_start in
+      let overlap_end := Z.min stop arr_end in
+      if overlap_end >? overlap_start then
+        match mk_getitem arr (set_idx axis (range_slice (overlap_start - arr_start) (overlap_end - arr_start)) full),
+              concat_pieces axis full start stop arr_end t with
+        | Some y, Some r => Some (y :: r)
+        | _, _ => None
+        end
+      else concat_pieces axis full start stop arr_end t
+  end.
+
+Definition rule_slice_concat (e : expr) : option expr :=
+  match e with
+  | ESlice (EConcat a axis rest) ix _ =>
+      let full := pad_index ix (endim (EConcat a axis rest)) in
+      if existsb is_int full then None else
+      if existsb is_none full then None else
+      match nth axis full INone with
+      | ISlice s =>
+          let total := zsum (map (fun x => nth axis (eshape x) 0) (a :: rest)) in
+          let '(start, stop, step) := indices s total in
+          if negb (step =? 1) then None else
+          match concat_pieces axis full start stop 0 (a :: rest) with
+          | Some [] => None                       (* "Empty result - shouldn't happen with valid slice" *)
+          | Some [x] => Some x
+          | Some (x :: xs) => Some (EConcat x axis xs)
+          | None => None
+          end
+      | _ => None
+      end
+  | _ => None
+  end.
+
+(* ---------------------------------------------------------------------- *)
+(* R11  Stack._accept_slice   [stacking/_stack.py]
+   Slice(Stack(arrays, axis), ix), slices only, unit step on the stacked axis: the arrays
+   [start:stop] are kept, each sliced with the other axes' slices (when one is not slice(None)). *)
+Definition rule_slice_stack (e : expr) : option expr :=
+  match e with
+  | ESlice (EStack a axis rest) ix _ =>
+      let full := pad_index ix (endim (EStack a axis rest)) in
+      if existsb is_int full then None else
+      if existsb is_none full then None else
+      match nth axis full INone with
+      | ISlice s =>
+          let n_arrays := Z.of_nat (S (length rest)) in
+          let '(start, stop, step) := indices s n_arrays in
+          if negb (step =? 1) then None else
+          let selected := skipn (Z.to_nat start) (firstn (Z.to_nat stop) (a :: rest)) in   (* arrays[start:stop] *)
+          let other := remove_at axis full in
+          let needs := negb (forallb is_colon other) in
+          match omap (fun arr => if needs then mk_getitem arr other else Some arr) selected with
+          | Some (x :: xs) => Some (EStack x axis xs)
+          | _ => None
+          end
+      | _ => None
+      end
+  | _ => None
+  end.
+
+(* ---------------------------------------------------------------------- *)
+(* R12  BroadcastTrick._accept_slice   [creation/_ones_zeros.py]: a slice of ones / zeros / full
+   is the same constant with the slice node's shape and chunks *)
+Definition rule_slice_full (e : expr) : option expr :=
+  match e with
+  | ESlice (EFull id shp chunks) ix _ =>
+      Some (EFull id (slice_shape ix shp) (slice_chunks_nd ix chunks shp))
+  | _ => None
+  end.
+
+(* ---------------------------------------------------------------------- *)
+(* R15  BroadcastTo._accept_slice   [_broadcast_to.py]: Slice(BroadcastTo(x, shape), ix), unit-step slices only ->
+   BroadcastTo(x[the slices of x's real axes; slice(None) on its size-1 axes], sliced shape).
+   New chunks: x's sliced chunks on its real axes, BroadcastTo._slice_chunks of the old ones elsewhere. *)
+Definition bt_slice_chunks (chunks : list Z) (start length : Z) : list Z :=      (* BroadcastTo._slice_chunks *)
+  if length =? 0 then [0] else slice_chunks_loop 0 chunks start length.
+
+Definition bt_axis (i : pidx) (n : Z) : pidx := if n =? 1 then ISlice colon else i.
+
+(* (start, stop) of a unit-step slice of an axis of length n *)
+Definition unit_range (i : pidx) (n : Z) : option (Z * Z) :=
+  match i with
+  | ISlice s => let '(a, b, k) := indices s n in if k =? 1 then Some (a, b) else None
+  | _ => None
+  end.
+
+Definition rule_slice_broadcast_to (e : expr) : option expr :=
+  match e with
+  | ESlice (EBroadcastTo x oshape ochunks) ix _ =>
+      let full := pad_index ix (length oshape) in
+      if existsb is_int full then None else
+      if existsb is_none full then None else
+      let ndim_new := (length oshape - endim x)%nat in
+      match omap (fun p => unit_range (fst p) (snd p)) (combine full oshape) with
+      | None => None
+      | Some ranges =>
+          let new_shape := map (fun r => Z.max 0 (snd r - fst r)) ranges in
+          let input_slices := zip2 bt_axis (skipn ndim_new full) (eshape x) in
+          match (match input_slices with [] => Some x | _ => mk_getitem x input_slices end) with
+          | None => None
+          | Some sliced =>
+              match echunks sliced with
+              | None => None
+              | Some sc =>
+                  let own := zip2 (fun c r => bt_slice_chunks c (fst r) (snd r - fst r)) ochunks ranges in
+                  let new_chunks :=
+                    firstn ndim_new own ++
+                    zip3 (fun n o c => if n =? 1 then o else c) (eshape x) (skipn ndim_new own) sc in
+                  Some (EBroadcastTo sliced new_shape new_chunks)
+              end
+          end
+      end
+  | _ => None
+  end.
+
+(* ---------------------------------------------------------------------- *)
+(* R13  Elemwise._lower   [_blockwise.py] -> unify_chunks_expr [_expr.py]: every array operand whose
+   chunks differ from the unified layout is rechunked to it (ArrayExpr.rechunk); the node is rebuilt only
+   when some operand changed.  The unified layout per OUTPUT axis, chunkss (chosen by the policy
+   / byte-cost heuristics of unify_chunks_expr), is the ORACLE argument [target]; an operand takes
+   chunkss[j] on the axes where its size is > 1 or 0, and (size,) on its size-1 axes. *)
+Definition unify_arg_chunks (sa : list Z) (target : list (list Z)) : list (list Z) :=
+  zip2 (fun n c => if (n >? 1) || (n =? 0) then c else [n]) sa (lastn (length sa) target).
+
+Definition lower_arg (target : list (list Z)) (a : expr) : option (expr * bool) :=
+  if is_const a then Some (a, false) else
+  match echunks a with
+  | None => None
+  | Some ca =>
+      let ch := unify_arg_chunks (eshape a) target in
+      if negb (zll_eqb ch ca) && forallb (fun d => negb (Nat.eqb (length d) 0)) ca   (* chunks != a.chunks and all(a.chunks) *)
+      then Some (ERechunk a 0 ch 0 false false, true)
+      else Some (a, false)
+  end.
+
+Definition rule_elemwise_lower (target : list (list Z)) (e : expr) : option expr :=
+  match e with
+  | EElemwise op args =>
+      match omap (lower_arg target) args with
+      | Some r => if existsb snd r then Some (EElemwise op (map fst r)) else None
+      | None => None
+      end
+  | _ => None
+  end.
+
+(* ---------------------------------------------------------------------- *)
+(* R16  Rechunk._pushdown_through_expand_dims: Rechunk(ExpandDims(y, axes), c) -> ExpandDims(Rechunk(y, c without the
+   expanded axes, balance off), axes)   and
+   Rechunk._pushdown_through_transpose: Rechunk(Transpose(x, axes), c) -> Transpose(x.rechunk(c permuted back), axes)
+   (for a raw _chunks operand that is the resolved tuple: spec = 0). *)
+Fixpoint drop_axes_ll (pos : nat) (axes : list nat) (c : list (list Z)) : list (list Z) :=
+  match c with
+  | [] => []
+  | d :: t => if memn pos axes then drop_axes_ll (S pos) axes t else d :: drop_axes_ll (S pos) axes t
+  end.
+
+Definition rule_rechunk_expand_dims (e : expr) : option expr :=
+  match e with
+  | ERechunk (EExpandDims y axes) _ c prm _ p2p =>
+      Some (EExpandDims (ERechunk y 0 (drop_axes_ll 0 axes c) prm false p2p) axes)
+  | _ => None
+  end.
+
+Definition rule_rechunk_transpose (e : expr) : option expr :=
+  match e with
+  | ERechunk (ETranspose x axes) spec c _ _ _ =>
+      if negb (spec =? 0) then None else
+      match mk_rechunk x (pickn [] c (inv_axes axes)) with       (* new_chunks[axes[i]] = chunks[i] *)
+      | Some x' => Some (ETranspose x' axes)
+      | None => None
+      end
+  | _ => None
+  end.
+
+(* ---------------------------------------------------------------------- *)
+(* R14  Rechunk._lower   [_rechunk.py]: no-op removal, pushdown into an (unchunked, NumPy) read,
+   composition with a contiguous slice (_pushdown_through_slice), else TasksRechunk.
+   Not modelled (the function returns None): a rechunk with explicit threshold / block_size_limit /
+   method, a child with unknown chunks, a read from a store with native chunks, and the P2PRechunk result.  The choice of
+   _choose_rechunk_method (configuration, presence of a distributed client) is the ORACLE
+   argument [choose_p2p]. *)
+Fixpoint pos_diffs (prev : Z) (l : list Z) : list Z :=      (* [b - a for a, b in zip(cuts, cuts[1:]) if b > a] *)
+  match l with
+  | [] => []
+  | b :: t => if b >? prev then (b - prev) :: pos_diffs b t else pos_diffs b t
+  end.
+
+Definition expand_axis (old tgt : list Z) (size start stop : Z) : list Z :=
+  let bounds := cumsum old in
+  let pre := pos_diffs 0 (filter (fun b => (0 <? b) && (b <? start)) bounds ++ [start]) in
+  let post := pos_diffs stop (filter (fun b => (stop <? b) && (b <? size)) bounds ++ [size]) in
+  pre ++ tgt ++ post.
+
+Definition on_grid (old : list Z) (v : Z) : bool := (v =? 0) || existsb (Z.eqb v) (cumsum old).
+
+(* (expanded, aligned) *)
+Fixpoint expand_chunks (index : list pidx) (old : list (list Z)) (shp : list Z) (target : list (list Z))
+  : option (list (list Z) * bool) :=
+  match index, old, shp with
+  | IInt _ :: ix', o :: old', _ :: shp' =>
+      match expand_chunks ix' old' shp' target with
+      | Some (r, al) => Some (o :: r, al)
+      | None => None
+      end
+  | ISlice s :: ix', o :: old', size :: shp' =>
+      match target with
+      | [] => None
+      | tgt :: target' =>
+          let '(start, stop, step) := indices s size in
+          if negb (step =? 1) || (stop <=? start) then None else
+          match expand_chunks ix' old' shp' target' with
+          | Some (r, al) => Some (expand_axis o tgt size start stop :: r, on_grid o start && on_grid o stop && al)
+          | None => None
+          end
+      end
+  | INone :: _, _ :: _, _ :: _ => None
+  | _, _, _ => Some ([], true)
+  end.
+
+Definition lens_prod (c : list (list Z)) : Z := zprod (map (fun d => Z.of_nat (length d)) c).
+
+Definition rechunk_through_slice (choose_p2p : bool) (slc : expr) (target : list (list Z)) : option expr :=
+  match slc with
+  | ESlice x ix0 _ =>
+      let index := pad_index ix0 (endim x) in
+      if negb (Nat.eqb (length index) (endim x)) then None else
+      match echunks x with
+      | None => None
+      | Some xc =>
+          match expand_chunks index xc (eshape x) target with
+          | None => None
+          | Some (expanded, aligned) =>
+              if aligned then None else
+              if existsb (fun d => existsb (Z.eqb 0) d) target then None else
+              let kept := lens_prod target in
+              if lens_prod expanded - kept >? 4 * kept then None else
+              if choose_p2p then None else
+              Some (ESlice (ETasksRechunk x expanded 0) index true)
+          end
+      end
+  | _ => None
+  end.
+
+(* Rechunk._pushdown_through_concatenate: off-axis changes rechunk each part directly; a change on the concatenation
+   axis redistributes the target over the parts (each target chunk is split at the part boundaries it crosses), which
+   is only done when some part is a read that absorbs its rechunk; a residual Rechunk stays above when target chunks
+   straddle part seams. *)
+Fixpoint split_part (room : Z) (tgt : list Z) : list Z * list Z :=     (* (this part's chunks, what is left of the target) *)
+  match tgt with
+  | [] => ([], [])
+  | c :: t =>
+      if room =? 0 then ([], tgt)
+      else if c <=? room then let '(p, r) := split_part (room - c) t in (c :: p, r)
+      else ([room], (c - room) :: t)
+  end.
+
+Fixpoint split_parts (sizes : list Z) (tgt : list Z) : option (list (list Z)) :=
+  match sizes with
+  | [] => match tgt with [] => Some [] | _ => None end        (* "part extents disagree with the target" *)
+  | s :: t => let '(p, r) := split_part s tgt in option_map (cons p) (split_parts t r)
+  end.
+
+Definition is_nd_source (e : expr) : bool := match e with ESource _ _ _ nd _ _ => nd | _ => false end.
+
+Definition rechunk_through_concat (e : expr) : option expr :=
+  match e with
+  | ERechunk (EConcat a axis rest) _ target prm _ p2p =>
+      if p2p then None else
+      let arrays := a :: rest in
+      match omap echunks arrays with
+      | None => None
+      | Some cs =>
+          let part_dims := map (fun c => nth axis c []) cs in
+          let taxis := nth axis target [] in
+          let redistributed := negb (list_eqb Z.eqb taxis (concat part_dims)) in
+          match (if redistributed
+                 then if existsb (Z.eqb 0) taxis || existsb (existsb (Z.eqb 0)) part_dims then None
+                      else split_parts (map zsum part_dims) taxis
+                 else Some part_dims) with
+          | None => None
+          | Some per_part =>
+              let specs := map (fun p => set_at axis p target) per_part in
+              if list_eqb zll_eqb specs cs then None else
+              if redistributed &&
+                 negb (existsb (fun p => is_nd_source (fst p) && negb (zll_eqb (snd p) (match echunks (fst p) with Some c => c | None => [] end)))
+                               (combine arrays specs))
+              then None else
+              match omap (fun p => mk_rechunk (fst p) (snd p)) (combine arrays specs) with
+              | Some (x :: xs) =>
+                  if list_eqb Z.eqb (concat per_part) taxis then Some (EConcat x axis xs)
+                  else Some (ERechunk (EConcat x axis xs) 0 target prm false p2p)
+              | _ => None
+              end
+          end
+      end
+  | _ => None
+  end.
+
+Definition is_source (e : expr) : bool := match e with ESource _ _ _ _ _ _ => true | _ => false end.
+Definition is_concat (e : expr) : bool := match e with EConcat _ _ _ => true | _ => false end.
+Definition is_slice (e : expr) : bool := match e with ESlice _ _ _ => true | _ => false end.
+
+Definition rule_rechunk_lower (choose_p2p : bool) (e : expr) : option expr :=
+  match e with
+  | ERechunk x spec c prm balance p2p =>
+      if negb (prm =? 0) || p2p then None else
+      match echunks x with
+      | None => None
+      | Some cx =>
+          if negb balance && zll_eqb c cx then Some x else
+          if is_source x then rule_rechunk_fromarray e              (* _pushdown_into_io *)
+          else
+            match (if is_concat x then rechunk_through_concat e                    (* _pushdown_through_concatenate *)
+                   else if is_slice x then rechunk_through_slice choose_p2p x c else None) with
+            | Some r => Some r
+            | None => if choose_p2p then None else Some (ETasksRechunk x c 0)
+            end
+      end
+  | _ => None
+  end.
+
+(* ---------------------------------------------------------------------- *)
 (* specification-side checkers: hypotheses of the soundness theorems that the construction of
    slice nodes through the public API (normalize_index) guarantees *)
 
@@ -604,8 +1019,9 @@ Definition rule_hyps_slice_fromarray (e : expr) : bool :=
 (* ---------------------------------------------------------------------- *)
 (* A termination measure for the modelled rules (C08): a linear interpretation,
    strictly monotone in every child, that every rule strictly decreases:
-   [Slice](x) = 3x, [Transpose](x) = [Rechunk](x) = [ExpandDims](x) = [BroadcastTo](x) = x + 1,
-   [Elemwise](xs) = [Concatenate](xs) = sum xs + 1, leaves 1. *)
+   [Slice](x) = 3x, [Rechunk](x) = 2x + 1, [Transpose](x) = [TasksRechunk](x) = [ExpandDims](x) = [BroadcastTo](x) = x + 1,
+   [Elemwise](x1..xn) = sum xi + n + 1, [Concatenate](xs) = [Stack](xs) = sum xs + 1, leaves 1.
+   (Slices and rechunks both sink towards the leaves; a rechunk weighs less the deeper it sits.) *)
 Fixpoint mu (e : expr) : nat :=
   match e with
   | ELeaf _ _ _ => 1
@@ -614,10 +1030,13 @@ Fixpoint mu (e : expr) : nat :=
   | ESource _ _ _ _ _ _ => 1
   | ESlice e' _ _ => 3 * mu e'
   | ETranspose e' _ => S (mu e')
-  | ERechunk e' _ _ _ _ _ => S (mu e')
+  | ERechunk e' _ _ _ _ _ => S (2 * mu e')
   | EExpandDims e' _ => S (mu e')
-  | EBroadcastTo e' _ => S (mu e')
-  | EElemwise _ args => S ((fix go (l : list expr) : nat := match l with [] => O | x :: t => (mu x + go t)%nat end) args)
+  | EBroadcastTo e' _ _ => S (mu e')
+  | ETasksRechunk e' _ _ => S (mu e')
+  | EFull _ _ _ => 1
+  | EStack e' _ rest => S (mu e' + (fix go (l : list expr) : nat := match l with [] => O | x :: t => (mu x + go t)%nat end) rest)
+  | EElemwise _ args => S ((fix go (l : list expr) : nat := match l with [] => O | x :: t => S (mu x + go t)%nat end) args)
   | EConcat e' _ rest => S (mu e' + (fix go (l : list expr) : nat := match l with [] => O | x :: t => (mu x + go t)%nat end) rest)
   end.
 
